@@ -8,5 +8,6 @@ INVARIANTS
   P_C01_Order
   P_C01_Fresh
   P_C01_Bounds
+  P_C01_Additive
   Emit
 CHECK_DEADLOCK FALSE
